@@ -6,6 +6,7 @@ import (
 	"runtime"
 	"strconv"
 	"sync"
+	"syscall"
 )
 
 // Gate scheduler (DESIGN.md 2.4): every request runs in its own goroutine; at each *gate* (storage
@@ -225,6 +226,49 @@ func (s *sched) step(p *proc) {
 // deadlocked: nobody can be released and not everybody is done.
 func (s *sched) deadlocked() bool { return len(s.enabled()) == 0 && !s.allDone() }
 
+var rescuedByPatience int // times a "nobody can move" situation dissolved during the grace period (a transient mutex wait)
+var confirmedStuck int // executions of this process in which "nobody can move" survived the grace period
+
+func wallNanos() int64 { // real time, also inside a synctest bubble (time.Now is virtual there)
+	var tv syscall.Timeval
+	_ = syscall.Gettimeofday(&tv)
+	return tv.Sec*1e9 + int64(tv.Usec)*1e3
+}
+
+// patience is called when no proc can be released although some are not done.  A proc classified as lock-blocked may have
+// been seen in a TRANSIENT mutex wait (the scheduler's own log mutex, a pool's internal lock whose holder sits on a
+// descheduled OS thread when the machine is busy): before the situation is reported as a deadlock the blocked procs are
+// re-examined in real time for a grace period.  Returns true if somebody can move again (or everybody finished).
+func (s *sched) patience(filter func(*proc) bool) bool {
+	budget := int64(400e6)
+	if confirmedStuck >= 10 {
+		budget = 60e6 // a code change that deadlocks most schedules must not make the exploration crawl
+	}
+	t0 := wallNanos()
+	for wallNanos()-t0 < budget {
+		ts := syscall.Timespec{Nsec: 2e6}
+		_ = syscall.Nanosleep(&ts, nil)
+		for _, q := range s.procs {
+			if q.state == psBlocked {
+				q.state = psRunning
+			}
+		}
+		s.settle()
+		if s.allDone() {
+			rescuedByPatience++
+			return true
+		}
+		for _, p := range s.enabled() {
+			if filter == nil || filter(p) {
+				rescuedByPatience++
+				return true
+			}
+		}
+	}
+	confirmedStuck++
+	return false
+}
+
 // abandon releases every parked proc repeatedly so that goroutines of an abandoned execution terminate
 // (used after a detected deadlock is impossible to resolve: blocked goroutines are left behind).
 func (s *sched) drain() {
@@ -279,6 +323,10 @@ func exploreFrom(newExec func() *execCtl, prefix []int, maxSchedules int, maxSte
 			w := len(en) + len(env)
 			if len(en) == 0 {
 				// only environment actions cannot resolve a deadlock among the procs
+				if s.patience(ex.filter) {
+					step--
+					continue
+				}
 				deadlock = true
 				break
 			}
@@ -355,6 +403,10 @@ func exploreRandom(newExec func() *execCtl, n int, seed uint64, maxSteps int) {
 				env = ex.extra()
 			}
 			if len(en) == 0 {
+				if s.patience(ex.filter) {
+					step--
+					continue
+				}
 				deadlock = true
 				break
 			}
